@@ -91,6 +91,11 @@ func c06JoinInfo() []xpath.CustomFunctionInfo {
 		FnPtr: func(args []xpath.Datum) xpath.Datum {
 			a := args[0].Literal("verif-join")
 			runtime.Gosched()
+			// a plugin may fail: for one operand in eight this one panics (the machine then sees the default
+			// value of the function; later calls are calls like any other)
+			if core.Hash(a)%8 == 0 {
+				panic("verif-join: operand refused")
+			}
 			return xpath.NewLiteralDatum(a + "|" + args[1].Literal("verif-join"))
 		},
 		Args:          []xpath.DatumTypeChecker{xpath.TypeIsLiteral, xpath.TypeIsLiteral},
